@@ -206,6 +206,10 @@ def run(ctx):
     from . import C03 as C03_
 
     ctx.guarded(r, C03_.r_contains)
+    from .. import quadrant as QD_
+
+    r = ctx.rule("R2d", "the interval choice functions decide Left / Right exactly as the bounds imply, whatever their magnitude (evaluated under f32 semantics on a grid with tiny, huge, zero and infinite bounds)", 4)
+    ctx.guarded(r, QD_.r_choice_decisions)
     from .. import asmcopy as AK
 
     r = ctx.rule("R2e", "the tracing assemblers' call helpers restore the choice pointer (rsi) and the flag pointer (rdx) with every live register", 4)
